@@ -242,6 +242,7 @@ def run(chk: core.Check):
     for ls in core.parallel(_record, seeds, {"maxobj": 25 if quick else 40, "runs": 6}):
         lines.extend(ls)
     rejected = trace_validate(chk, lines)
+    core.canary(chk, lines, trace_validate, what="Trace_Traverse", skip=set(rejected))
     chk.traces_accepted += len(lines) - len(rejected)
     chk.evaluations += len(lines)
     for i in rejected[:20]:
